@@ -12,6 +12,7 @@
   checked against the brute-force oracle of the harness only (test level).
 -/
 import MocVerif.Lemmas.Morpho
+import MocVerif.Lemmas.ValidOps
 import MocVerif.Model.Params
 import MocVerif.Lemmas.Graph
 
@@ -39,6 +40,48 @@ theorem tf_contracted_range (c ub : Nat) (r : Rng) (x : Nat) :
     (∃ s, tfShrink c ub r = some s ∧ s.1 ≤ x ∧ x < s.2) ↔
       ((r.1 > 0 → r.1 + c ≤ x) ∧ (r.1 = 0 → r.1 ≤ x) ∧ (r.2 < ub → x + c < r.2) ∧ (¬ r.2 < ub → x < r.2)) :=
   mem_tfShrink c ub r x
+
+/-- **T/F `contracted`** (repaired) on a whole MOC: canonical, and a point is kept iff every point of the
+    domain whose depth-`d` cell is equal or adjacent to its own is covered. -/
+theorem tf_contracted_sem (c ub : Nat) (hc : 0 < c) (m : List Rng) (hm : Canon m)
+    (hb : BoundedBy ub m) (ha : Aligned c m) (hub : c ∣ ub) :
+    Canon (tfContracted c ub m) ∧
+    ∀ x, mem x (tfContracted c ub m) ↔
+      x < ub ∧ ∀ y, y < ub → x / c ≤ y / c + 1 → y / c ≤ x / c + 1 → mem y m :=
+  tfContracted_spec c ub hc m hm hb ha hub
+
+/-- **Duality**, for every valid T- or F-MOC of depth `d`: `contracted = complement ∘ expanded ∘ complement`
+    (equality of the range lists, both sides being canonical). -/
+theorem tf_contracted_dual (q : Qty) (w d : Nat) (h0 : 0 < q.nCellsMax w) (m : List Rng) (hv : Valid q w d m) :
+    tfContracted (q.cellSize w d) (q.nCellsMax w) m =
+      complement (q.nCellsMax w) (tfExpanded (q.cellSize w d) (q.nCellsMax w) (complement (q.nCellsMax w) m)) := by
+  have hc := q.cellSize_pos w d
+  have hub := q.cellSize_dvd_nCellsMax w d
+  have c1 := tfContracted_spec _ _ hc m hv.1 hv.2.1 hv.2.2 hub
+  have vc := valid_complement q w d m h0 hv
+  have sc := complement_spec (q.nCellsMax w) m h0 hv.1 hv.2.1
+  have e1 := tfExpanded_spec _ _ hc _ vc.1 vc.2.1 vc.2.2 hub
+  have hbe : BoundedBy (q.nCellsMax w) (tfExpanded (q.cellSize w d) (q.nCellsMax w) (complement (q.nCellsMax w) m)) := by
+    intro r hr
+    apply Classical.byContradiction; intro hgt
+    have hne := canon_nonempty e1.1 r hr
+    have : mem (r.2 - 1) (tfExpanded (q.cellSize w d) (q.nCellsMax w) (complement (q.nCellsMax w) m)) :=
+      (mem_iff_exists _ _).2 ⟨r, hr, by omega, by omega⟩
+    have := ((e1.2 _).1 this).1
+    omega
+  have s2 := complement_spec (q.nCellsMax w) _ h0 e1.1 hbe
+  refine Canon.ext c1.1 s2.1 (fun x => ?_)
+  rw [c1.2, s2.2, e1.2]
+  constructor
+  · rintro ⟨hx, hall⟩
+    refine ⟨hx, ?_⟩
+    rintro ⟨_, y, hy, k1, k2⟩
+    have hy' := (sc.2 y).1 hy
+    exact hy'.2 (hall y hy'.1 k1 k2)
+  · rintro ⟨hx, hno⟩
+    refine ⟨hx, fun y hy k1 k2 => ?_⟩
+    apply Classical.byContradiction; intro hnm
+    exact hno ⟨hx, y, (sc.2 y).2 ⟨hy, hnm⟩, k1, k2⟩
 
 /-- The defect found in the original code, as a theorem about the ORIGINAL formula: shrinking both
     ends unconditionally disagrees with `complement ∘ expanded ∘ complement` on `[0, 10·c)`. -/
